@@ -79,6 +79,7 @@ pub fn respell(pem: &str, sp: &str, other: &str) -> String {
 }
 
 const OVERRIDE_NAME: &str = "override.example.com";
+const XTRACE: [&str; 3] = ["x-trace.id_1", "!#$%&'*+-.^_`|~0aZ", "X"];
 
 fn repo_dir() -> String {
     std::env::var("VERIF_REPO").unwrap_or_else(|_| "/repo".to_string())
@@ -200,7 +201,8 @@ impl Conc {
         match tok {
             "none" => None,
             "X-Id" => Some("X-Sozu-Corr".into()),
-            "X-Trace" => Some("x-trace.id_1".into()),
+            // valid names at the edge of the token grammar the patch validator applies, one per variant
+            "X-Trace" => Some(XTRACE[(self.variant % 3) as usize].into()),
             "bad header" => Some(["bad header", "bad:header", "bad\r\nheader"][(self.variant % 3) as usize].into()),
             o => Some(o.into()),
         }
@@ -209,7 +211,7 @@ impl Conc {
         match v.as_deref() {
             None => "none".into(),
             Some("X-Sozu-Corr") => "X-Id".into(),
-            Some("x-trace.id_1") => "X-Trace".into(),
+            Some(x) if XTRACE.contains(&x) => "X-Trace".into(),
             Some(o) => o.into(),
         }
     }
